@@ -27,6 +27,8 @@ EXPLANATION = (
     "prepare_unrestricted_aminusb and, before it, in every writer's prepare_dump.  Declined: identical "
     "overlap matrix, density and spin density (numerical)."
 )
+TECHNIQUE += '; identity-shortcut predicate check'
+EXPLANATION += ' Added: (R5) prepare_unrestricted_aminusb returns the unconverted object only under the documented nothing-to-do tests.'
 TRUSTED = ["CPython ast parser", "attrs.evolve copies all fields not named", "np.concatenate keeps the order of its inputs"]
 
 
@@ -45,7 +47,7 @@ def _norm_pred(e, shellvar):
 
 def run(ctx):
     prog = ctx.prog
-    ctx.clauses_decided = ["R1 order-preserving split", "R2 keep_sp predicate agreement", "R3 un-restriction template", "R4 generalized orbitals rejected"]
+    ctx.clauses_decided = ["R1 order-preserving split", "R2 keep_sp predicate agreement", "R3 un-restriction template", "R4 generalized orbitals rejected", "R5 identity shortcut of prepare_unrestricted_aminusb"]
     ctx.clauses_declined = ["identical overlap matrix, density, spin density (numerical)"]
     cs = prog.func("iodata.convert.convert_to_segmented")
     cu = prog.func("iodata.convert.convert_to_unrestricted")
@@ -248,3 +250,9 @@ def run(ctx):
         else:
             ctx.violate("R4", f"{short}.prepare_dump does not reject generalized orbitals with PrepareDumpError before converting", g, stc)
     ctx.floor("R4", ncallers, 4, "prepare_dump callers of prepare_unrestricted_aminusb")
+
+    # ------------------------------------------------------------------ R5
+    ctx.rule("R5", "the un-restriction shortcut returns the same object only when nothing needs converting", "restricted orbitals with an explicit alpha-minus-beta occupation pass through unconverted")
+    from .guards import check_aminusb_predicate
+
+    check_aminusb_predicate(ctx, "R5")
